@@ -20,10 +20,11 @@ import (
 // ------------------------------------------------------------------ the resolver's private cache lookups
 
 // store priv <kind> <qtype> <stored> <askCD>
-//   kind:   pos | nodata          qtype: DS | DNSKEY | A | NS
-//   stored: list over {0,1}: the CD partitions an entry for the question is filed under ("-" = none);
-//           each entry is marked with its partition in its rdata
-//   askCD:  the CD bit of the request Store.GetWithContext (the reader behind Resolver.subQuery) is asked with
+//
+//	kind:   pos | nodata          qtype: DS | DNSKEY | A | NS
+//	stored: list over {0,1}: the CD partitions an entry for the question is filed under ("-" = none);
+//	        each entry is marked with its partition in its rdata
+//	askCD:  the CD bit of the request Store.GetWithContext (the reader behind Resolver.subQuery) is asked with
 func execStorePriv(f []string) vlib.Res {
 	kind, qt, ask := f[2], qtypes[f[3]], bit(f[5])
 	cfg := &config.Config{CacheSize: 1024, Expire: 600}
@@ -31,7 +32,9 @@ func execStorePriv(f []string) vlib.Res {
 	defer c.Stop()
 	st := c.Store().(*cache.Store)
 	const name = "key.privtest."
-	hdr := func(t uint16) dns.RR_Header { return dns.RR_Header{Name: name, Rrtype: t, Class: dns.ClassINET, Ttl: 300} }
+	hdr := func(t uint16) dns.RR_Header {
+		return dns.RR_Header{Name: name, Rrtype: t, Class: dns.ClassINET, Ttl: 300}
+	}
 	mark := func(p int) dns.RR {
 		switch qt {
 		case dns.TypeDS:
@@ -130,8 +133,9 @@ func fakeSig(owner string, covered uint16, signer string) *dns.RRSIG {
 }
 
 // ad cut <cd> <do> <ad> <opt> <proto> <route> <depth> <qtype>
-//   a locally validated NXDOMAIN for gone.cut.adtest. is recorded as a cut; a name <depth> labels below it is asked
-//   through edns -> cache -> (stub).  route: wire-direct | wire-ww | msg
+//
+//	a locally validated NXDOMAIN for gone.cut.adtest. is recorded as a cut; a name <depth> labels below it is asked
+//	through edns -> cache -> (stub).  route: wire-direct | wire-ww | msg
 func execAdCut(f []string) vlib.Res {
 	cd, do, ad, opt := bit(f[2]), bit(f[3]), bit(f[4]), bit(f[5])
 	proto, route, depth, qt := f[6], f[7], vlib.Atoi(f[8]), qtypes[f[9]]
@@ -164,11 +168,15 @@ func execAdCut(f []string) vlib.Res {
 	stub := &reachedStub{}
 	hs := []middleware.Handler{e, c, stub}
 	var resp *dns.Msg
+	infoDiffers := false
 	switch route {
 	case "msg":
 		resp, _ = runChain(hs, req, proto, false, false)
 	case "wire-ww":
-		resp, _ = runChain(hs, req, proto, true, true)
+		var ww *wireWriter
+		resp, ww = runChain(hs, req, proto, true, true)
+		// what the writer chain is told about the body must be what the body says
+		infoDiffers = resp != nil && ww.wrote && ww.info.AuthenticatedData != resp.AuthenticatedData
 	default:
 		raw, _ := req.Pack()
 		var rq middleware.Request
@@ -196,8 +204,13 @@ func execAdCut(f []string) vlib.Res {
 	}
 	hit := stub.calls == 0
 	impl := fmt.Sprintf("cut=%s rcode=%d ad=%s dnssec=%s", vlib.B(hit), resp.Rcode, vlib.B(resp.AuthenticatedData), vlib.B(dnssecRecs))
+	if infoDiffers {
+		impl += " info-differs"
+	}
 	or := "ok"
 	switch {
+	case infoDiffers:
+		or = fail("ad/cut/wire-info-disagrees-with-body", "route=%s do=%v ad=%v", route, do, ad)
 	case resp.AuthenticatedData && cd:
 		or = fail("ad/cut/ad-toward-cd-client", "route=%s depth=%d", route, depth)
 	case resp.AuthenticatedData && !do && !ad:
@@ -223,9 +236,10 @@ func genAdCut(r *vlib.R) string {
 // ------------------------------------------------------------------ a cached alias whose target hop fails
 
 // ad hitfail <cd> <do> <ad> <opt> <proto> <route> <nhops> <fail>
-//   the alias chain alias -> t1 -> … is cached (validated) except for its last hop; the fetch of that hop fails:
-//   fail = servfail-ede (SERVFAIL + EDE 6, as the resolver's handler answers a bogus zone) | servfail | refused |
-//          formerr | notimp
+//
+//	the alias chain alias -> t1 -> … is cached (validated) except for its last hop; the fetch of that hop fails:
+//	fail = servfail-ede (SERVFAIL + EDE 6, as the resolver's handler answers a bogus zone) | servfail | refused |
+//	       formerr | notimp
 func execAdHitFail(f []string) vlib.Res {
 	cd, do, ad, opt := bit(f[2]), bit(f[3]), bit(f[4]), bit(f[5])
 	proto, route, nh, kind := f[6], f[7], vlib.Atoi(f[8]), f[9]
@@ -387,9 +401,10 @@ func keyView(m *dns.Msg) string {
 }
 
 // keycache run <events>
-//   events (comma list): q0a q0b q1a q1b = a client asks '<zone> DNSKEY' with CD=0/1 while upstream is
-//   authentic (a) / padded (b);  x = every cached entry expires.  After the history the validator's own fetch
-//   (Store.GetWithContext, CD=0) and a checking-disabled one (CD=1) are made.
+//
+//	events (comma list): q0a q0b q1a q1b = a client asks '<zone> DNSKEY' with CD=0/1 while upstream is
+//	authentic (a) / padded (b);  x = every cached entry expires.  After the history the validator's own fetch
+//	(Store.GetWithContext, CD=0) and a checking-disabled one (CD=1) are made.
 func execKeyCache(f []string) vlib.Res {
 	cfg := &config.Config{CacheSize: 1024, Expire: 600}
 	e := edns.New(cfg)
